@@ -18,6 +18,7 @@ func init() {
 			"month star table: years 子午卯酉 start the 寅 month at star 8, 辰戌丑未 at 5, 寅申巳亥 at 2, each following month one less",
 		},
 		Gen: c16Gen, Run: c16Run,
+		BlockKind: "year", BlockQuick: [2]int{8, 8}, BlockThorough: [2]int{0, 25},
 		Exhaustive: func(tier string) bool { return tier == "thorough" },
 		MinEvals:   map[string]int64{"quick": 500000, "thorough": 30000000},
 		Chunks:     128,
@@ -120,6 +121,7 @@ func c16Run(w *W, c Case) {
 	}
 	lo := ref.Stamp{Y: y, M: 1, D: 1}.Secs()
 	hi := ref.Stamp{Y: y, M: 12, D: 31, H: 23, Mi: 59, S: 59}.Secs()
+	nJudge := 0
 	judge := func(t int64, class string, allSlots bool) {
 		if t < lo || t > hi {
 			return
@@ -127,6 +129,9 @@ func c16Run(w *W, c Case) {
 		st := ref.FromSecs(t)
 		key := fmtStamp(st)
 		w.Cur("C16 moment " + key)
+		if nJudge++; nJudge%9 == 0 {
+			distract(st, nJudge/9)
+		}
 		l := solarOf(st).GetLunar()
 		rp, e := c05Reference(st, l)
 		if e != "" {
